@@ -26,12 +26,21 @@ type leasePhase struct {
 	start, end int64
 }
 
-func leasePhases(o leaseOut) []leasePhase {
+// A new call starts with a datagram that differs from the previous one or that
+// is not written at the previous call's next retransmission instant
+// start + T*(2^j - 1) (user modifiers can make a REQUEST byte-identical to the
+// DISCOVER; it is sent when the offer arrives, which is never on that grid).
+func leasePhases(sc leaseScenario, o leaseOut) []leasePhase {
 	var ps []leasePhase
+	j := 0
 	for i, w := range o.txs {
-		if i == 0 || !bytes.Equal(w.bytes, o.txs[i-1].bytes) {
-			ps = append(ps, leasePhase{first: i, start: w.t, end: o.endT})
+		j++
+		if i > 0 && bytes.Equal(w.bytes, o.txs[i-1].bytes) &&
+			w.t == ps[len(ps)-1].start+int64(leaseTryStart(sc.T, j-1))*1000000 {
+			continue
 		}
+		ps = append(ps, leasePhase{first: i, start: w.t, end: o.endT})
+		j = 1
 	}
 	for i := 0; i+1 < len(ps); i++ {
 		ps[i].end = ps[i+1].start
@@ -193,7 +202,7 @@ func leaseCheck4(sc leaseScenario, o leaseOut) (string, string) {
 		}
 		dec = append(dec, p)
 	}
-	phs := leasePhases(o)
+	phs := leasePhases(sc, o)
 	if sc.n == 0 && sc.kind != "release" {
 		if len(o.txs) != 0 || o.res != "noresp" {
 			return "completion", "zero tries: want nothing sent and the no-response error"
@@ -436,7 +445,7 @@ func leaseCheck6(sc leaseScenario, o leaseOut) (string, string) {
 		}
 		dec = append(dec, m)
 	}
-	phs := leasePhases(o)
+	phs := leasePhases(sc, o)
 	if sc.kind == "request" {
 		adv := mkMsg6(parseSx(sc.adv)).(*dhcpv6.Message)
 		if !leaseBuildable(adv) {
